@@ -53,4 +53,49 @@ PROPS = {
                          'generated kind table coq/gen/Kinds.v (tools/gen_tables.py, regenerated from syntax_kind_enum.rs every run)'],
         'assumptions': ['inputs shorter than 2^32 bytes (u32 offsets); fewer than 2^31 line breaks inside one string literal (i32 counter)'],
     },
+    'C01': {
+        'coq': 'Props/C01.v',
+        'families': [
+            {'name': 'pk',
+             'args': {'quick': ['--exhaustive', 3, '--random', 20000], 'thorough': ['--exhaustive', 4, '--random', 300000]},
+             'shards': {'quick': 16, 'thorough': 16}, 'driver_args': ['--nodedupe']},
+            {'name': 'tree',
+             'args': {'quick': ['--corpus', 1, '--mutants', 1500, '--lexemes', 800, '--templates', 2500, '--random', 1500],
+                      'thorough': ['--corpus', 1, '--mutants', 60000, '--lexemes', 30000, '--templates', 100000, '--random', 60000]},
+             'shards': {'quick': 16, 'thorough': 16}, 'driver_args': []},
+            {'name': 'lex',
+             'args': {'quick': ['--exhaustive', 4, '--random', 2000], 'thorough': ['--exhaustive', 6, '--random', 100000]},
+             'shards': {'quick': 16, 'thorough': 16}, 'driver_args': []},
+        ],
+        'exhaustive': {'quick': True, 'thorough': True},
+        'rule': 'token level: every sequence of length <= 3 (quick) / <= 4 (thorough) over the 91 kinds the lexer can emit, once with all '
+                'tokens separated and once all adjacent (joint), plus random sequences of length 1..14 with random joint bits; text level: '
+                'the 50 corpus snippets, token-level mutants of windows of them, random lexeme sequences, statement templates with random '
+                'expression holes, fragment soups; lexer: all strings of length <= 4/6 over the 14-character alphabet. Non-trivial = at '
+                'least 2 tokens / 3 characters; exhaustive cases are distinct by construction, the others are counted once per distinct text',
+        'trusted_base': ['models Model/{Lexer,Lexed,Parser,Grammar,Builder}.v of oq3_lexer, oq3_parser (parser.rs, event.rs, token_set.rs, input.rs, grammar/**, shortcuts.rs, lexed_str.rs) and oq3_syntax (parsing.rs, syntax_node.rs, validation.rs timing units)',
+                         'rowan GreenNodeBuilder modelled as a rose-tree builder; oq3_lexer::unescape not modelled (its diagnostics are ignored in the comparison)',
+                         'hook: parser stuck detector (verif_tick) turns a hang of the implementation into a panic'],
+        'assumptions': ['inputs shorter than 2^32 bytes; nesting depth within the process stack (measured: > 5000 levels on 8 MiB); the parser step limit (15e6 look-aheads without progress) is not modelled'],
+        'partial': ['theorem B (marker discipline, process/builder/tree-builder/validation totality) is not proved; only exercised by the bounded-exhaustive correspondence and the implementation oracle'],
+    },
+    'C02': {
+        'coq': 'Props/C02.v',
+        'families': [
+            {'name': 'tree',
+             'args': {'quick': ['--corpus', 1, '--mutants', 2500, '--lexemes', 1500, '--templates', 4000, '--random', 2500],
+                      'thorough': ['--corpus', 1, '--mutants', 60000, '--lexemes', 30000, '--templates', 100000, '--random', 60000]},
+             'shards': {'quick': 16, 'thorough': 16}, 'driver_args': []},
+            {'name': 'pk',
+             'args': {'quick': ['--exhaustive', 2, '--random', 20000], 'thorough': ['--exhaustive', 3, '--random', 300000]},
+             'shards': {'quick': 16, 'thorough': 16}, 'driver_args': ['--nodedupe']},
+        ],
+        'exhaustive': {'quick': False, 'thorough': False},
+        'rule': 'text level (both entry points): corpus snippets, token-level mutants, lexeme sequences, statement templates, fragment soups; '
+                'the model tree is compared node by node (kind, token lengths) and the implementation is asked directly for text()==input, '
+                'tiling of every node by its children and root range; token level: consumed tokens = input tokens, balanced steps',
+        'trusted_base': ['as C01; rowan ranges are derived from leaf lengths (the model tree stores no ranges)'],
+        'assumptions': ['as C01'],
+        'partial': ['that the builder ends at the end of the token table (is_eof) is not proved; checked on the implementation by the oracle'],
+    },
 }
